@@ -15,6 +15,15 @@ def register(S):
                         "one_box_per_occurrence": (
                             "boxes(self._local_objects._dict, k) == old(boxes(self._local_objects._dict, k)) + occ(obj, self, k)",
                             ["C10", "C03"]),
+                        # what a remote-reference label names is kept in THIS connection's table under that label's id:
+                        # the object itself (or the object already lent under that id - the same one, T-ID)
+                        "the_referenced_object_is_lent": (
+                            "implies(not plain(obj) and not istuple(obj) and not own_proxy(obj, self), "
+                            "haskey(self._local_objects._dict, id_pack(obj)) and "
+                            "(same(lent(self._local_objects._dict, id_pack(obj)), obj) or "
+                            "(old(haskey(self._local_objects._dict, id_pack(obj))) and "
+                            "same(lent(self._local_objects._dict, id_pack(obj)), old(lent(self._local_objects._dict, id_pack(obj)))))))",
+                            ["C03", "C10"]),
                         "table_stays_well_formed": (TABLE_OK, ["C10", "C03", "C07"])},
                raises={}, modifies=["self._local_objects._dict"],
                calls={"_box": {"ghost": {"k": "k"}}},
@@ -61,40 +70,80 @@ def register_unbox(S):
                raises={"BaseException": {"props": P3, "modifies": IO}}, modifies=IO + ["$refcounts"])
 
     UNBOX_IO = IO + ["self._proxy_cache._dict", "$refcounts"]
-    S.contract(F + "_unbox", params={"self": "obj:Connection", "package": "val"}, result="val",
-               requires=["plain(package)", "all_slots_ok(self._local_objects._dict)", "cache_ok(self._proxy_cache._dict, self)"],
-               ensures={
-                   "cache_stays_well_formed": ("cache_ok(self._proxy_cache._dict, self)", P3),
-                   "by_value": ("implies(label_is(package, LABEL_VALUE), same(result, payload(package)) and n_events() == 0)", P3),
-                   # a reference handed back to its owner resolves through THIS connection's table, and only through it
-                   "local_reference_is_the_lent_object": (
-                       "implies(label_is(package, LABEL_LOCAL_REF), haskey(self._local_objects._dict, payload(package)) and "
-                       "same(result, lent(self._local_objects._dict, payload(package))) and n_events() == 1 and "
-                       "n_callees('__getitem__') == 1 and callee_arg('__getitem__', 0, 'self') is self._local_objects)", P3),
-                   "tuple_item_wise_in_order": (
-                       "implies(label_is(package, LABEL_TUPLE), istuple(result) and n_ev('Loop') == 1 and "
-                       "loop_ghost(0, 'unboxed') == items(result) and loop_ghost(0, 'seen') == iter_source(payload(package)))", P3),
-                   "remote_reference_is_a_proxy_for_that_id": (
-                       "implies(label_is(package, LABEL_REMOTE_REF), is_netref(result) and haskey(self._proxy_cache._dict, "
-                       "netref_idpack(result)) and same(self._proxy_cache._dict[netref_idpack(result)], result))", P3),
-                   # the same remote object received again while its proxy is alive IS that proxy, and its count is bumped
-                   "same_proxy_while_alive": (
-                       "implies(label_is(package, LABEL_REMOTE_REF) and n_callees('_netref_factory') == 0, "
-                       "same(result, old(self._proxy_cache._dict[netref_idpack(result)])) and "
-                       "refcount(result) == old(refcount(result)) + 1)", ["C03", "C10"]),
-                   "only_known_labels": ("label_is(package, LABEL_VALUE) or label_is(package, LABEL_TUPLE) or "
-                                         "label_is(package, LABEL_LOCAL_REF) or label_is(package, LABEL_REMOTE_REF)", P3),
-                   "lent_table_untouched": ("True", P3)},
-               raises={"BaseException": {"props": P3, "modifies": UNBOX_IO,
-                                         "state": ["cache_ok(self._proxy_cache._dict, self)"]}}, modifies=UNBOX_IO,
-               loops={0: {"rest": "rest", "havoc": {"acc": "vl"}, "modifies": UNBOX_IO,
-                          "ghost": {"unboxed": ("vl", "nil()", "app(unboxed, cons(callee_result('_unbox', 0), nil()))"),
-                                    "seen": ("vl", "nil()", "app(seen, cons(callee_arg('_unbox', 0, 'package'), nil()))")},
-                          "invariant": ["acc == unboxed", "app(seen, rest) == iter_source(payload(package))",
-                                        "plain_list(rest)", "all_slots_ok(self._local_objects._dict)",
-                                        "cache_ok(self._proxy_cache._dict, self)"],
-                          "body_events": ["n_callees('_unbox') == 1 and n_events() == 1 and "
-                                          "same(callee_arg('_unbox', 0, 'package'), item)"],
-                          "step_hints": ["app_app1(old_seen, item, rest)"],
-                          "snoc_hints": ["snoc_is_app(acc, x)"],
-                          "exit_hints": ["app_nil(seen)"]}})
+    INV = ["plain(package)", "all_slots_ok(self._local_objects._dict)", "cache_ok(self._proxy_cache._dict, self)"]
+    CACHE = {"cache_stays_well_formed": ("cache_ok(self._proxy_cache._dict, self)", P3)}
+    LV, LT, LL, LR = ["label_is(package, %s)" % l for l in ("LABEL_VALUE", "LABEL_TUPLE", "LABEL_LOCAL_REF", "LABEL_REMOTE_REF")]
+    LOOP = {0: {"rest": "rest", "havoc": {"acc": "vl"}, "modifies": UNBOX_IO,
+                "ghost": {"unboxed": ("vl", "nil()", "app(unboxed, cons(callee_result('_unbox', 0), nil()))"),
+                          "seen": ("vl", "nil()", "app(seen, cons(callee_arg('_unbox', 0, 'package'), nil()))")},
+                "invariant": ["acc == unboxed", "app(seen, rest) == iter_source(payload(package))",
+                              "plain_list(rest)", "all_slots_ok(self._local_objects._dict)",
+                              "cache_ok(self._proxy_cache._dict, self)"],
+                "body_events": ["n_callees('_unbox') == 1 and n_events() == 1 and "
+                                "same(callee_arg('_unbox', 0, 'package'), item)"],
+                "step_hints": ["app_app1(old_seen, item, rest)"],
+                "snoc_hints": ["snoc_is_app(acc, x)"],
+                "exit_hints": ["app_nil(seen)"]}}
+    ANY_RAISE = {"BaseException": {"props": P3, "modifies": UNBOX_IO, "state": ["cache_ok(self._proxy_cache._dict, self)"]}}
+    S.contract(F + "_unbox", params={"self": "obj:Connection", "package": "val"}, result="val", loops=LOOP, solver_pruning=True,
+               # which case applies is decided by the label alone (one behaviour per label; `other` = anything else)
+               dispatch=[(LV, "by_value"), (LL, "local_reference"), (LT, "tuple"), (LR, "remote_reference"), (None, "other")],
+               behaviours={
+                   "by_value": dict(requires=INV + [LV], modifies=[], raises={},
+                                    ensures=dict(CACHE, the_value_itself=("same(result, payload(package))", P3),
+                                                 nothing_else_happens=("n_events() == 0", P3))),
+                   # a reference handed back to its owner resolves through THIS connection's table, and only through it;
+                   # an id that is not in the table (never lent on this connection, or released) is refused: KeyError
+                   "local_reference": dict(
+                       requires=INV + [LL], modifies=[], returns_when=["haskey(self._local_objects._dict, payload(package))"],
+                       ensures=dict(CACHE, local_reference_is_the_lent_object=(
+                           "haskey(self._local_objects._dict, payload(package)) and "
+                           "same(result, lent(self._local_objects._dict, payload(package)))", P3),
+                           only_through_this_connections_table=(
+                               "n_events() == 1 and n_callees('__getitem__') == 1 and "
+                               "callee_arg('__getitem__', 0, 'self') is self._local_objects", P3)),
+                       raises={"KeyError": {"only_when": "not haskey(self._local_objects._dict, payload(package))", "props": P3,
+                                            "modifies": [], "state": ["n_events() == 1 and n_callees('__getitem__') == 1"]}}),
+                   "tuple": dict(requires=INV + [LT], modifies=UNBOX_IO, raises=ANY_RAISE,
+                                 ensures=dict(CACHE, tuple_item_wise_in_order=(
+                                     "istuple(result) and n_ev('Loop') == 1 and "
+                                     "loop_ghost(0, 'unboxed') == items(result) and loop_ghost(0, 'seen') == iter_source(payload(package))", P3))),
+                   "remote_reference": dict(
+                       requires=INV + [LR], modifies=UNBOX_IO, raises=ANY_RAISE,
+                       ensures=dict(CACHE,
+                                    remote_reference_is_a_proxy_for_that_id=(
+                                        "is_netref(result) and "
+                                        "implies(is_id_pack(payload(package)), same(netref_idpack(result), payload(package))) and "
+                                        "same(netref_conn(result), self) and haskey(self._proxy_cache._dict, netref_idpack(result)) and "
+                                        "same(self._proxy_cache._dict[netref_idpack(result)], result)", P3),
+                                    # the same remote object received again while its proxy is alive IS that proxy, count bumped
+                                    # the same remote object received again while its proxy is alive IS that proxy, count bumped;
+                                    # otherwise a new proxy with count 1 (which of the two: whether one was cached)
+                                    same_proxy_while_alive=(
+                                        "implies(is_id_pack(payload(package)) and old(haskey(self._proxy_cache._dict, payload(package))), "
+                                        "same(result, old(self._proxy_cache._dict[payload(package)])) and "
+                                        "refcount(result) == old(refcount(result)) + 1)", ["C03", "C10"]),
+                                    new_proxy_counts_one=(
+                                        "implies(is_id_pack(payload(package)) and not old(haskey(self._proxy_cache._dict, payload(package))), "
+                                        "refcount(result) == 1)", ["C03", "C10"]),
+                                    other_proxies_untouched=(
+                                        # (creating a new proxy may inspect the remote class by a nested request, during which other
+                                        # traffic is served: nothing is promised about other proxies then)
+                                        "implies(is_id_pack(payload(package)) and old(haskey(self._proxy_cache._dict, payload(package))), "
+                                        "unchanged_except(self._proxy_cache._dict, netref_idpack(result)) and "
+                                        "counts_unchanged_except(result))", ["C03", "C10"]),
+                                    factory_only_when_not_cached=(
+                                        "implies(is_id_pack(payload(package)), n_callees('_netref_factory') == "
+                                        "(0 if old(haskey(self._proxy_cache._dict, payload(package))) else 1))", ["C03", "C10"]))),
+                   # all labels at once, for callers that do not care which (one path instead of five)
+                   "any": dict(requires=INV, modifies=UNBOX_IO, raises=ANY_RAISE,
+                               ensures=dict(CACHE,
+                                            by_value=("implies(%s, same(result, payload(package)))" % LV, P3),
+                                            local_reference_is_the_lent_object=(
+                                                "implies(%s, haskey(self._local_objects._dict, payload(package)) and "
+                                                "same(result, lent(self._local_objects._dict, payload(package))))" % LL, P3),
+                                            only_known_labels=("%s or %s or %s or %s" % (LV, LT, LL, LR), P3))),
+                   "other": dict(requires=INV + ["not %s" % LV, "not %s" % LL, "not %s" % LT, "not %s" % LR], modifies=[], noreturn=True,
+                                 raises={"ValueError": {"props": P3, "modifies": [], "state": ["n_events() == 0"]},
+                                         "TypeError": {"props": P3, "modifies": [], "state": ["n_events() == 0"]}}),
+               })
